@@ -97,6 +97,10 @@ def gen_cases(ctx):
                 yield {"p": p, "kind": "one-zero", "rank": int(rng.integers(1, 64 - p + 2))}
                 yield {"p": p, "kind": "all-zero-but-one", "rank": int(rng.integers(1, 64 - p + 2)), "pos": int(rng.integers(0, m))}
                 yield {"p": p, "kind": "uniform", "rank": int(rng.integers(1, 6))}
+                # two-level states: the largest ranks (64-p+1, 64-p) dominate or share the sum with one other rank (round 7, seed C17-M)
+                yield {"p": p, "kind": "two-level", "r1": 64 - p + 1, "r2": 64 - p, "every": 2}
+                yield {"p": p, "kind": "two-level", "r1": 64 - p + 1, "r2": int(rng.integers(1, 64 - p + 1)), "every": int(rng.integers(2, 9))}
+                yield {"p": p, "kind": "two-level", "r1": int(rng.integers(40, 64 - p + 2)), "r2": int(rng.integers(30, 64 - p + 2)), "every": int(rng.integers(2, 200))}
                 # estimates far beyond 2^32 (uniform high ranks), and the precision passed as a narrow NumPy integer
                 yield {"p": p, "kind": "uniform", "rank": pick(rng, [10, 14, 16, 20, 30, 40, 64 - p])}
                 for pt in ("uint8", "int8", "int16", "uint16", "int32", "uint64"):
@@ -140,6 +144,9 @@ def build(case, mon):
         reg[case["pos"]] = case["rank"]
     elif k == "uniform":
         reg = np.full(m, case["rank"], np.uint8)
+    elif k == "two-level":
+        reg = np.full(m, case["r1"], np.uint8)
+        reg[:: case["every"]] = case["r2"]
     elif k == "lc-threshold":
         reg = tuned_lc(p, float(hll.threshold), case["side"], case.get("offset", 0))
     elif k == "raw-5m":
